@@ -377,7 +377,8 @@ VARIANTS = [
                    "    if node.template:\n"
                    "      keywords.insert(0, \"Generic[\" + \", \".join(node.template) + \"]\")\n"
                    "    return keywords\n") + _VC_DEF)]},
-    {"name": "twin-header-built-by-a-helper-method", "rule": "R20.21", "expect": "silent",
+    # a helper that is not handed the node itself is outside the model: refusal
+    {"name": "header-built-by-a-helper-given-the-bases", "rule": "R20.21", "expect": "error",
      "edits": [(PR, "    bases_str = f\"({', '.join(bases)})\" if bases else \"\"\n",
                 "    bases_str = self._FormatBases(bases)\n"),
                (PR, _VC_DEF, "  def _FormatBases(self, bases):\n"
